@@ -684,6 +684,8 @@ class EventBus:
     def _start(self) -> None:
         """Start the event bus if not already running"""
         if not self._is_running:
+            if self.event_queue is not None and self.event_queue._is_shutdown:  # pyright: ignore[reportPrivateUsage]
+                return  # stop() shut this bus down for good, a late dispatch() must not revive its run loop
             try:
                 loop = asyncio.get_running_loop()
 
